@@ -186,4 +186,17 @@ def listAppend (xs : List Node) (v : Node) : List Node := xs ++ [v]
 def listMustSet (xs : List Node) (i : Nat) (v : Node) : Outcome (List Node) :=
   if i < xs.length then .ok (xs.set i v) else .panic
 
+
+
+/-- No key anywhere in the tree ends in an index group `[digits]` — the invariant of every
+    container built through the public API (DESIGN.md section 2, D26). -/
+inductive Node.KeysOk : Node → Prop
+  | leaf (v : Scalar) : Node.KeysOk (.leaf v)
+  | list {xs : List Node} : (∀ x ∈ xs, Node.KeysOk x) → Node.KeysOk (.list xs)
+  | cont {kvs : List (String × Node)} :
+      (∀ p ∈ kvs, hasIdxSuffix p.1 = false) → (∀ p ∈ kvs, Node.KeysOk p.2) → Node.KeysOk (.cont kvs)
+
+/-- constructible through the API: sorted unique keys, none ending in an index group -/
+def Node.Valid (n : Node) : Prop := n.WF ∧ n.KeysOk
+
 end Ytk
